@@ -180,26 +180,22 @@ sortmx(struct ips **p)
 	*p = next;
 
 	while (next) {
-		struct ips *this = res;
+		struct ips **pos = &res;
 		struct ips *tmp = next->next;
 
-		if ((res->priority > next->priority)
+		/* skip everything that has to stay in front of next: lower priority values,
+		 * and for the same priority everything but IPv4-only entries if next has IPv6 */
+		while (*pos && ((*pos)->priority <= next->priority)
 #ifndef IPV4ONLY
-				|| ((res->priority == next->priority)
-					&& IN6_IS_ADDR_V4MAPPED(res->addr)
+				&& !(((*pos)->priority == next->priority)
+					&& IN6_IS_ADDR_V4MAPPED((*pos)->addr)
 					&& !IN6_IS_ADDR_V4MAPPED(next->addr))
 #endif
-				) {
-			next->next = res;
-			res = next;
-		} else {
-			while (this->next && (this->next->priority <= next->priority)) {
-				this = this->next;
-			}
-			tmp = next->next;
-			next->next = this->next;
-			this->next = next;
-		}
+				)
+			pos = &(*pos)->next;
+
+		next->next = *pos;
+		*pos = next;
 		next = tmp;
 	}
 
